@@ -19,7 +19,7 @@ use tu_verif::refs;
 use tu_verif::run::Run;
 use tu_verif::srng;
 
-const ALPHA: [&str; 3] = ["a", "ä", "e\u{301}"];
+const ALPHA: [&str; 4] = ["a", "ä", "e\u{301}", "\u{e0}"];
 /// probe alphabet (DESIGN 6): symbols inside the stated domain whose grapheme clusters merge when a
 /// separating space disappears — regional indicators and conjoining Hangul jamo (L + V)
 const PROBE: [&str; 5] = ["a", "\u{1F1E9}", "\u{1F1EA}", "\u{1100}", "\u{1161}"];
